@@ -134,6 +134,11 @@ func (ex *Exec) binop(op token.Token, t types.Type, x, y value) value {
 			if ex.branch(z) {
 				ex.runtimePanic("integer divide by zero")
 			}
+			if !uns && op == token.QUO && b.IsConst() {
+				if r := ex.divLinForm(a, signExt(b.u, 64)); r != nil {
+					return r
+				}
+			}
 			if !uns {
 				if r := ex.narrowDivRem(op == token.REM, a, b); r != nil {
 					return r
@@ -484,7 +489,9 @@ func (ex *Exec) indexAddr(fr *frame, instr *ssa.IndexAddr) value {
 		return cells[i]
 	}
 	oob := ex.tc.Or(ex.tc.SLt(idx, ex.tc.Int64(0)), ex.tc.SGe(idx, ex.tc.Int64(int64(n))))
-	if ex.branch(oob) {
+	if rg := ex.rangeOf(idx, 0); rg.lo >= 0 && rg.hi < int64(n) {
+		// in range by interval analysis of the path condition: no check needed
+	} else if ex.branch(oob) {
 		ex.runtimePanic("index out of range (symbolic)")
 	}
 	if n == 1 {
